@@ -13,7 +13,21 @@ def main(path):
     from engine import chx
 
     assert "crosshair" not in sys.modules, "replay must run without the engine"
-    verdict, detail = chx.run_concrete(fn, rec["args"])
+    index = None
+    if "sequence" in rec:
+        # a history: the cases are executed in order in this one process (state that the real code
+        # keeps between calls, e.g. a module-level cache, is part of the counterexample)
+        verdict, detail = "PASS", None
+        for index, args in enumerate(rec["sequence"]):
+            verdict, detail = chx.run_concrete(fn, args)
+            if verdict == "FAIL":
+                rec["args"] = args
+                detail = f"after {index} earlier case(s) in the same process: {detail}"
+                break
+        else:
+            rec["args"] = rec["sequence"][-1]
+    else:
+        verdict, detail = chx.run_concrete(fn, rec["args"])
     desc = None
     d = getattr(mod, "describe", None)
     if d is not None:
@@ -23,7 +37,7 @@ def main(path):
             desc = "describe failed: %r" % (e,)
     if desc is not None:
         print("CASE", json.dumps(desc, default=repr))
-    print("REPLAY " + json.dumps({"verdict": verdict, "detail": detail, "harness": rec["harness"]}))
+    print("REPLAY " + json.dumps({"verdict": verdict, "detail": detail, "harness": rec["harness"], "index": index}))
     return 1 if verdict == "FAIL" else 0
 
 
